@@ -6,6 +6,7 @@ import numpy as np
 
 from mc import alphabets as A
 from mc.harness import Result, Sub
+from mc.ref import c03x as X
 from mc.ref.base import mk_snaps
 from mc.ref.grsq import ref_gr
 
@@ -14,7 +15,15 @@ ASSUMPTIONS = [
     "pairs closer than 1e-9 to a bin edge may be counted in either adjacent bin (interval oracle)",
     "triclinic cells: 'minimum image' is the C02 half-cell convention; bins are int(min(boxlength)/2/width) as documented",
     "float tolerance rtol 1e-9 / atol 1e-11",
+    "scale slice: one fixed deterministic point set per (size, dimension, frame); sets with a periodic fractional pair "
+    "separation within 1e-9 of 1/2 (rint tie of the minimum image) are re-drawn; the reference is a vectorised pair histogram",
+    "ppp may be given as ndarray, list or tuple; positions may be C- or Fortran-ordered float arrays",
+    "call sequences: results must not depend on earlier calls or on other live gr objects (outputs are functions of the "
+    "inputs); 'fresh state' = library modules re-imported in a forked child",
 ]
+
+# slices whose unchanged-tree behaviour violates the property and is not yet repaired (none at present)
+KNOWN_OPEN = []
 
 
 # ---------------------------------------------------------------------------- geometry helpers
@@ -158,7 +167,6 @@ def gen_csv(tier, seed):
 
 # ------------------------------------------------------------------------------------- oracle
 def run(case):
-    import pandas as pd
     from PyMatterSim.static.gr import gr
 
     R = Result()
@@ -177,17 +185,39 @@ def run(case):
     if case.get("H_frames"):
         sig["tilt_varies"] = True
     snaps = mk_snaps(frames, Hsrc, tsrc)
-    before = [s.positions.copy() for s in snaps.snapshots]
     out = "gr_out.csv" if case["csv"] else None
+    before = [s.positions.copy() for s in snaps.snapshots]
     res = gr(snaps, ppp=ppp, rdelta=w, outputfile=out).getresults()
-    cols, r, lo, hi, norm = ref_gr(frames, Hsrc, tsrc, ppp, w)
+    ref = ref_gr(frames, Hsrc, tsrc, ppp, w)
+    populated = compare(R, res, ref, sig, case["types"], out)
+    for s, b in zip(snaps.snapshots, before):
+        if not np.array_equal(s.positions, b):
+            R.fail("snapshot positions modified", sig=dict(sig, clause="input_modified"))
+    cols = ref[0]
+    if not set(cols) <= set(res.columns):
+        return R
+    R.outcome({c: res[c].values for c in cols}, nd=7)
+    R.nontrivial = populated >= 2 * len(cols) or (populated >= 2 and len(types) <= 4)
+    R.elem = len(cols) * len(ref[1])
+    return R
+
+
+def compare(R, res, ref, sig, types0, out=None):
+    """every bin of every column against the reference intervals; the consequences stated in the property (sum rule, pair
+    partition) on the implementation's own output; the CSV round trip.  Returns the number of populated (column, bin) cells,
+    -1 when the table has the wrong shape."""
+    import pandas as pd
+
+    cols, r, lo, hi, norm = ref[:5]
+    types = np.asarray(types0)
+    K = len(set(types.tolist()))
     exp_cols = ["r"] + cols
     if sorted(res.columns) != sorted(exp_cols) or res.columns[0] != "r":
         R.fail(f"columns {list(res.columns)} != {exp_cols}", sig=dict(sig, clause="columns"), exp=exp_cols, obs=list(res.columns))
-        return R
+        return -1
     if len(res) != len(r):
         R.fail(f"{len(res)} bins, expected int(Lmin/2/w)={len(r)}", sig=dict(sig, clause="bins"))
-        return R
+        return -1
     if not np.allclose(res["r"].values, r, rtol=1e-12, atol=1e-12):
         R.fail("bin centres differ", sig=dict(sig, clause="bins"), exp=r[:5], obs=res["r"].values[:5])
     populated = 0
@@ -198,11 +228,12 @@ def run(case):
         populated += int((hi[c] > 0).sum())
         if bad.any():
             k = int(np.argmax(bad))
-            R.fail(f"column {c} bin {k} (r={r[k]:.4f}): got {v[k]!r}, reference in [{lo[c][k]!r}, {hi[c][k]!r}]",
+            R.fail(f"column {c} bin {k} (r={r[k]:.4f}): got {v[k]!r}, reference in [{lo[c][k]!r}, {hi[c][k]!r}]"
+                   f" ({int(bad.sum())} of {len(v)} bins differ; raw pair count of the bin {hi[c][k] / norm[c][k]:.0f})",
                    sig=dict(sig, clause="column", col=c), exp=[lo[c][k], hi[c][k]], obs=v[k])
     # consequences stated in the property, evaluated on the implementation's own output
     if 1 < K <= 5:
-        tl = sorted(set(case["types"]))
+        tl = sorted(set(types.tolist()))
         N = len(types)
         ca = {t: (types == t).sum() / N for t in tl}
         tot = np.zeros(len(r))
@@ -215,18 +246,16 @@ def run(case):
             R.fail("total != sum_ab c_a c_b g_ab", sig=dict(sig, clause="total_sum"))
         if not np.allclose(cnt, res["gr"].values / norm["gr"], rtol=1e-9, atol=1e-9):
             R.fail("partial pair counts do not add up to the total pair count (a pair in zero or two columns)", sig=dict(sig, clause="partition"))
-    for s, b in zip(snaps.snapshots, before):
-        if not np.array_equal(s.positions, b):
-            R.fail("snapshot positions modified", sig=dict(sig, clause="input_modified"))
-    if case["csv"]:
-        back = pd.read_csv(out)
-        if list(back.columns) != list(res.columns) or not np.allclose(back.values, res.values, rtol=0, atol=0.5000001e-6):
-            R.fail("CSV file differs from the returned frame beyond %.6f", sig=dict(sig, clause="csv"))
-        os.remove(out)
-    R.outcome({c: res[c].values for c in cols}, nd=7)
-    R.nontrivial = populated >= 2 * len(cols) or (populated >= 2 and len(types) <= 4)
-    R.elem = len(cols) * len(r)
-    return R
+    if out is not None:
+        if not os.path.exists(out):
+            R.fail(f"outputfile {out} was not written", sig=dict(sig, clause="csv"))
+        else:
+            back = pd.read_csv(out)
+            if list(back.columns) != list(res.columns) or back.shape != res.shape or \
+                    not np.allclose(back.values, res.values, rtol=0, atol=0.5000001e-6):
+                R.fail("CSV file differs from the returned frame beyond %.6f", sig=dict(sig, clause="csv"))
+            os.remove(out)
+    return populated
 
 
 def subs(tier, seed):
